@@ -499,12 +499,104 @@ def run_histories(ctx):
               lambda: {"inside_fresh": int(fresh.sum()), "inside_reused": int(again.sum())})
 
 
+def run_grid_ownership(ctx):
+    """Grid arguments keep their cell values whatever is done afterwards with what a
+    call returned (clone with and without a dtype, apply, the Catchment built on a flow
+    grid), and whatever the function handed to apply does with the array it receives."""
+    from hydrodiy.gis import grid as gg
+    rng = np.random.default_rng(ctx.seed + 23)
+    for dt in (np.float64, np.float32, np.int64, np.int32, np.uint8):
+        nr, nc = int(rng.integers(2, 7)), int(rng.integers(2, 7))
+        vals = rng.integers(1, 100, size=(nr, nc)).astype(dt)
+        g0 = gg.Grid("own", nc, nr, dtype=dt)
+        g0.data = vals.copy()
+        makers = {"clone()": lambda: g0.clone(),
+                  "clone(own dtype)": lambda: g0.clone(g0.dtype),
+                  "clone(other dtype)": lambda: g0.clone(np.float64 if dt is not np.float64
+                                                         else np.float32),
+                  "apply(pure)": lambda: g0.apply(lambda d_: d_ + 0),
+                  "apply(identity)": lambda: g0.apply(lambda d_: d_),
+                  "clip": lambda: g0.clip(0.5, 0.5, nc - 0.5, nr - 0.5)}
+        for nm, mk in makers.items():
+            ctx.api("Grid." + nm.split("(")[0])
+            ctx.tag("ownership:grid")
+            ctx.evaluated()
+            case_ = {"kind": "ownership", "how": nm, "dtype": np.dtype(dt).name}
+            try:
+                res = mk()
+                before = np.array(g0.data, copy=True)
+                res.fill(dt(3))
+                res.data[...] = dt(5)
+                ok1 = bool(np.array_equal(np.asarray(g0.data), before))
+                keep = np.array(res.data, copy=True)
+                g0.fill(dt(9))
+                ok2 = bool(np.array_equal(np.asarray(res.data), keep))
+                g0.data = vals.copy()
+            except Exception as e:
+                ctx.check("ownership.runs", False, f"gis.grid.Grid.{nm}|raises", case_,
+                          {"exc": repr(e)[:200]})
+                g0.data = vals.copy()
+                continue
+            ctx.check("ownership.argument-kept", ok1,
+                      f"gis.grid.Grid.{nm}|grid-changes-when-the-result-is-edited", case_,
+                      None)
+            ctx.check("ownership.result-kept", ok2,
+                      f"gis.grid.Grid.{nm}|result-changes-when-the-grid-is-edited", case_,
+                      None)
+        # the function given to apply may work in place on what it receives
+        for nm, fun in {"in-place-add": lambda d_: np.add(d_, 1, out=d_),
+                        "in-place-mask": lambda d_: (d_.__setitem__((0, 0), 0), d_ * 2)[1],
+                        "in-place-sort": lambda d_: (d_.sort(axis=1), d_)[1],
+                        "fill": lambda d_: (d_.fill(7), d_)[1]}.items():
+            ctx.api("Grid.apply")
+            ctx.tag("ownership:apply-in-place-function")
+            ctx.evaluated()
+            case_ = {"kind": "ownership", "how": "apply:" + nm, "dtype": np.dtype(dt).name}
+            g0.data = vals.copy()
+            try:
+                r1 = np.array(g0.apply(fun).data, copy=True)
+                after1 = np.array(g0.data, copy=True)
+                r2 = np.array(g0.apply(fun).data, copy=True)
+            except Exception as e:
+                ctx.extra[f"apply-refused:{nm}"] += 1
+                continue
+            ctx.check("apply.grid-kept", bool(np.array_equal(after1, vals)),
+                      "gis.grid.Grid.apply|grid-changed-by-the-function-applied", case_,
+                      lambda: {"before": vals.ravel()[:6].tolist(),
+                               "after": after1.ravel()[:6].tolist()})
+            ctx.check("apply.repeatable", bool(np.array_equal(r1, r2)),
+                      "gis.grid.Grid.apply|second-call-differs", case_, None)
+        # a catchment built on a flow grid: later edits of the caller's grid do not
+        # reach it, and delineating does not touch the caller's grid
+        codes = np.full((nr, nc), 4, dtype=np.int64)
+        codes[nr - 1, :] = 0
+        fd = gg.Grid("fd", nc, nr, dtype=np.int64)
+        fd.data = codes.copy()
+        cat = gg.Catchment("c", fd)
+        out = (nr - 1) * nc
+        cat.delineate_area(out)
+        a1 = sorted(int(v) for v in cat.idxcells_area)
+        fd.fill(0)
+        fd.data[...] = 0
+        cat.delineate_area(out)
+        a2 = sorted(int(v) for v in cat.idxcells_area)
+        ctx.api("Catchment")
+        ctx.tag("ownership:catchment-flow-grid")
+        ctx.evaluated()
+        ctx.check("catchment.owns-its-flow-grid", a1 == a2 and len(a1) == nr,
+                  "gis.grid.Catchment|result-changes-after-caller-edits-its-flow-grid",
+                  {"kind": "ownership", "how": "Catchment(flowdir)"},
+                  lambda: {"first": a1, "after_edit": a2})
+
+
 def run(ctx):
     from hyverif.monitors import purity
     np.seterr(all="ignore")
     warnings.simplefilter("ignore")
     if ctx.shard == 0 or ctx.replaying:
         run_histories(ctx)
+    if ctx.shard == 1 % ctx.nshards or ctx.replaying:
+        run_grid_ownership(ctx)
     wrapped = purity.install()
     ctx.info["wrapped_callables"] = len(wrapped)
     st = purity.STATE
